@@ -59,7 +59,27 @@ def main(prop):
             ("repeated_not", {"pattern": ["ret", {"$not": ["call"], "times": 2}]}, None),
             ("operand_not", {"pattern": [{"push": [{"$not": ["rex"]}]}, "ret"]}, None),
         ]
+        # ... nor on the full-match flags of an earlier rule that negates the same name
+        for mf, of in T.FLAGS:
+            seq_items.append((f"not_flags_{T.ftag(mf, of)}", T.doc_of([{"$not": ["mov"]}, "ret"], mf, of), None))
+        for of in (False, True):
+            seq_items.append((f"operand_not_flags_o{int(of)}", T.doc_of([{"mov": [{"$not": ["rax"]}, "rbx"]}], False, of), None))
         lemmas.sequence_invariance(run, seq_items, "not_typing")
+    FLAG_SEQ = {
+        "C01": [("item", [{"mov": ["a", "b"]}, "ab"]), ("hexh", [{"mov": ["10h", "a"]}])],
+        "C02": [("times", ["push", {"mov": ["a"], "times": {"min": 1, "max": 2}}, {"$or": ["mov", "add"], "times": 2}, "ret"])],
+        "C03": [("ops", ["a", {"$or": ["b", {"$and_any_order": ["c", {"b": ["x"]}]}]}, {"mov": [{"$or": ["x", "y"]}, "c"]}])],
+        "C07": [("lead", [{"$or": ["mov", {"add": ["a"]}]}, {"call": ["@any"]}])],
+    }
+    if prop in FLAG_SEQ:
+        # one pattern under the four full-match flag settings (plus a second rule): what a rule compiles to must not depend
+        # on the flags or names of a rule compiled earlier in the same process
+        seq_items = []
+        for nm, pat in FLAG_SEQ[prop]:
+            for mf, of in T.FLAGS:
+                extra = {"macros": [{"name": "@any", "pattern": "[^, |]{1,1000}"}]} if "@any" in str(pat) else None
+                seq_items.append((f"{nm}_{T.ftag(mf, of)}", T.doc_of(pat, mf, of, extra), None))
+        lemmas.sequence_invariance(run, seq_items, "flags")
     if prop == "C07":
         # the reported text must be the engine's whole match (group 0) and the reported address its prefix: the
         # forwarding harness of C12 (engine stubbed) — a rule with capture groups must not change what is reported
